@@ -169,6 +169,10 @@ CHECKS["C07"] = {
         {"pkg": "gbnprop", "run": "TestC07WindowInjection", "kind": "plain", "shards": (1, 8), "timeout": (900, 3600)},
         {"pkg": "gbnprop", "run": "TestC07Junk", "checks": (1500, 20000), "shards": (1, 8), "timeout": (900, 3600)},
         {"pkg": "gbnprop", "run": "FuzzC07Deserialize", "kind": "fuzz", "fuzztime": (0, 60), "tiers": ("thorough",), "parallel": 8},
+        {"pkg": "mboxprop", "run": "TestC07NoiseJunk", "checks": (3000, 60000), "shards": (1, 8), "timeout": (900, 3600)},
+        {"pkg": "mboxprop", "run": "TestC07RecordJunk", "checks": (1500, 30000), "shards": (1, 4), "timeout": (900, 3600)},
+        {"pkg": "mboxprop", "run": "TestC07JSONEnvelope", "checks": (20000, 400000), "shards": (1, 4), "timeout": (900, 3600)},
+        {"pkg": "mboxprop", "run": "TestC07MsgDataEnum", "kind": "plain"},
     ],
 }
 
@@ -208,6 +212,7 @@ CHECKS["C17"] = {
     "assumptions": ["stream-direction agreement is relative to the in-memory relay"],
     "units": [
         {"pkg": "mboxprop", "run": "TestC17Codec", "checks": (20000, 400000), "shards": (1, 4), "timeout": (600, 3600)},
+        {"pkg": "mboxprop", "run": "TestC17Streams", "checks": (300, 3000), "shards": (1, 4), "timeout": (600, 3600)},
     ],
 }
 
